@@ -34,7 +34,9 @@ func Path(c *vlib.Ctx) string {
 	sh := shared()
 	if c.Shard == 0 {
 		tmp := sh + ".tmp"
-		args := []string{"build", "-o", tmp}
+		// no_pipe_net is (despite its name) the tag that compiles the tcp/udp pipe types in: their constructors
+		// fail while returning a typed nil pointer, which the pipe-registry sequences of C19 need (seed C19-2)
+		args := []string{"build", "-tags", "no_pipe_net", "-o", tmp}
 		if ov := os.Getenv("VERIF_OVERLAY"); ov != "" {
 			args = append(args, "-overlay", ov)
 		}
